@@ -59,6 +59,72 @@ func New() *Store { return &Store{m: map[string]*Entry{}, opaque: map[string]int
 
 func (s *Store) Len() int { return len(s.m) }
 
+// Clone returns a deep copy.
+func (s *Store) Clone() *Store {
+	c := New()
+	for k, e := range s.m {
+		ne := &Entry{Kind: e.Kind, TTL: e.TTL}
+		ne.Str = append([]byte(nil), e.Str...)
+		for _, p := range e.Hash {
+			ne.Hash = append(ne.Hash, pair{p.k, append([]byte(nil), p.v...)})
+		}
+		for _, v := range e.List {
+			ne.List = append(ne.List, append([]byte(nil), v...))
+		}
+		ne.Set = append([]string(nil), e.Set...)
+		ne.ZSet = append([]zmem(nil), e.ZSet...)
+		c.m[k] = ne
+	}
+	for k, v := range s.opaque {
+		c.opaque[k] = v
+	}
+	return c
+}
+
+// Fingerprint is a deterministic digest of the whole content (state equality for model checking).
+func (s *Store) Fingerprint() uint64 {
+	h := uint64(14695981039346656037)
+	mix := func(b []byte) {
+		for _, c := range b {
+			h ^= uint64(c)
+			h *= 1099511628211
+		}
+		h ^= 0xfd
+		h *= 1099511628211
+	}
+	for _, k := range s.Keys() {
+		e := s.m[k]
+		mix([]byte(k))
+		mix([]byte{byte(e.Kind)})
+		mix(e.Str)
+		for _, p := range e.Hash {
+			mix([]byte(p.k))
+			mix(p.v)
+		}
+		for _, v := range e.List {
+			mix(v)
+		}
+		for _, m := range e.Set {
+			mix([]byte(m))
+		}
+		for _, z := range e.ZSet {
+			mix([]byte(z.m))
+			mix([]byte(strconv.FormatFloat(z.s, 'g', 17, 64)))
+		}
+		mix([]byte(strconv.FormatInt(e.TTL, 10)))
+	}
+	oks := make([]string, 0, len(s.opaque))
+	for k := range s.opaque {
+		oks = append(oks, k)
+	}
+	sort.Strings(oks)
+	for _, k := range oks {
+		mix([]byte(k))
+		mix([]byte(strconv.Itoa(s.opaque[k])))
+	}
+	return h
+}
+
 func (s *Store) Keys() []string {
 	ks := make([]string, 0, len(s.m))
 	for k := range s.m {
